@@ -420,6 +420,30 @@ def run_property(pid, tier, seed, replay_file=None):
             if any((verd_all[i] >> 3) == 0 for i in spec_fail):
                 break
 
+    # ---- real-kernel referee of the simulated kernel (skipped, never failed, where unavailable)
+    referee = {'runs': 0, 'disagreements': 0, 'skipped': None, 'samples': []}
+    ref_bad = []
+    if cfg.get('referee') and not replay_file:
+        nref = cfg.get('referee_quick', 3) if tier == 'quick' else cfg.get('referee_thorough', 40)
+        out = os.path.join(d, 'referee.jsonl')
+        rc, o = sh([os.path.join(RUN, 'lcv'), cfg['referee'], 'referee', '-seed', str(seed), '-n', str(nref), '-out', out],
+                   timeout=3000, env=dict(GOENV, LCV_RUN=RUN, LCV_REPO=REPO), limit_mem=True)
+        if rc != 0:
+            raise Broken('referee run failed:\n' + o[-3000:])
+        for line in open(out):
+            r = json.loads(line)
+            if 'skipped' in r:
+                referee['skipped'] = r['skipped']
+            elif 'error' in r and r['error']:
+                raise Broken('referee: ' + r['error'])
+            else:
+                referee['runs'] += 1
+                if not r.get('agree'):
+                    referee['disagreements'] += 1
+                    ref_bad.append(r)
+                elif len(referee['samples']) < 2:
+                    referee['samples'].append(r.get('script'))
+
     # ---- verdicts
     nrep = [0]
 
@@ -458,6 +482,12 @@ def run_property(pid, tier, seed, replay_file=None):
                           'search of %d inputs found none on which the property predicate fails'
                           % (pid, proofs.get('failed_at'), searched), nofail=True,
                           extra={'broken': 'theorems %s' % proofs['theorems'], 'coq_error': proofs.get('error')})
+    if ref_bad and not violations:
+        add_violation(None, None,
+                      'the simulated kernel (coq/Model/Kernel.v = harness/simk) and the real kernel disagree on %d of %d '
+                      'scripts of layercake commands: the theorems about mounts no longer speak about this kernel/code '
+                      'combination; no input on which the property predicate fails was found' % (len(ref_bad), referee['runs']),
+                      nofail=True, extra={'broken': 'correspondence Kernel.v / real kernel (referee)', 'referee': ref_bad[:3]})
     if evalerr and not violations:
         raise Broken('case evaluation failed in Coq:\n' + '\n'.join(errors_all[:3]))
 
@@ -495,6 +525,7 @@ def run_property(pid, tier, seed, replay_file=None):
             'out_of_domain_cases': len(ood),
             'known_finding_cases': known_seen,
             'search_cases': searched,
+            'real_kernel_referee': referee,
             'input_distribution': dict(sorted(hist.items())),
             'explanation': cfg.get('explanation', ''),
         },
